@@ -7,7 +7,9 @@ begin <repaired 0|1> <minAge> <oldLimitMs> <defLimit> <maxLimit> <viewLevel> <ad
 port <pid> <b|i|n> <interval> <retention>         declare a port (last read value = null, last timestamp 0)
 interval <pid> <n>                                set history_interval
 retention <pid> <n>                               set history_retention
-tick <now>                                        one janitor_task + one sampling_task iteration
+tick <now>                                        one janitor_task (retention loop + scheduled removals) + one sampling_task iteration
+recreate <pid> <b|i|n> <interval> <retention>     the port is removed (cache dropped, removal of its samples scheduled) and a
+                                                  new port with the same id and the given type is created
 gbegin <b|a> get <level> <pid> <now> <from> <to> <limit> <timestamps>   start a by-timestamp request and suspend it in its
 gbegin <b|a> hbyts <pid> <now> <t,t,…|->          persistence query: `b` = before the query executes, `a` = after (reply
 dbegin <b|a> del <level> <pid> <from> <to>        held back); same for a removal.  Reply `pending`, or the final reply when
@@ -35,6 +37,7 @@ structure DState where
   st : State := {}
   fls : List Flight := []
   pend : Option Pending := none
+  pending : List Nat := []       -- `_pending_remove_samples`: ids of removed ports whose samples the janitor will remove
 
 def optInt (w : String) : Option (Option Int) :=
   if w == "-" then some none else (w.toInt?).map some
@@ -112,7 +115,7 @@ def dstep0 (d : DState) : List String → DState × String
       -- r: bit 0 = repaired, bit 1 = popAfter (second cache invalidation of remove_samples), bit 2 = lateDict
       if r > 7 then (d, "bad-op") else
       ({ cfg := { repaired := r % 2 == 1, popAfter := (r / 2) % 2 == 1, lateDict := (r / 4) % 2 == 1, useCache := true, minAge := a, oldLimit := o, defLimit := dl, maxLimit := ml,
-                  viewLevel := vl, adminLevel := al }, st := {}, fls := [], pend := none }, "ok")
+                  viewLevel := vl, adminLevel := al }, st := {}, fls := [], pend := none, pending := [] }, "ok")
     | _, _, _, _, _, _, _ => (d, "bad-op")
   | ["port", pid, t, iv, rt] =>
     match pid.toNat?, ptypeOfS t, iv.toInt?, rt.toInt? with
@@ -128,8 +131,21 @@ def dstep0 (d : DState) : List String → DState × String
     | _, _ => (d, "bad-op")
   | ["tick", now] =>
     match now.toInt? with
-    | some now => ({ d with st := samplerTick d.cfg (janitorTick d.cfg d.st now) now }, "ok")
+    | some now =>
+      -- the sampler task is created first and runs first; it commutes with the retention loop of the janitor (a
+      -- sample taken now is never expired) but not with the scheduled removals, which therefore come last
+      let (st1, pending) := janitorPending d.cfg (samplerTick d.cfg (janitorTick d.cfg d.st now) now) d.pending now
+      ({ d with st := st1, pending := pending }, "ok")
     | none => (d, "bad-op")
+  | ["recreate", pid, t, iv, rt] =>
+    match pid.toNat?, ptypeOfS t, iv.toInt?, rt.toInt? with
+    | some pid, some t, some iv, some rt =>
+      match findPort d.st pid with
+      | some _ =>
+        ({ d with st := recreatePort d.st { id := pid, ptype := t, interval := iv, last := none, retention := rt },
+                  pending := schedule d.pending pid }, "ok")
+      | none => (d, "err 404")
+    | _, _, _, _ => (d, "bad-op")
   | ["interval", pid, iv] =>
     match pid.toNat?, iv.toInt? with
     | some pid, some iv =>
@@ -279,7 +295,11 @@ def dstep (d : DState) : List String → DState × String
     let pops : List Nat :=
       match ws with
       | ["hremove", pids, _, _] => (csvNats pids).getD []
-      | ["tick", now] => match now.toInt? with | some now => popped d.cfg d.st (.tick now) | none => []
+      | ["tick", now] =>
+        match now.toInt? with
+        | some now => popped d.cfg d.st (.tick now) ++ (if now > d.cfg.oldLimit then d.pending else [])
+        | none => []
+      | ["recreate", pid, _, _, _] => (match pid.toNat? with | some p => [p] | none => [])
       | _ => []
     let (d', r) := dstep0 d ws
     let pops := match ws with
